@@ -42,7 +42,7 @@ def observe(cx, tier, seed, impl=None):
         for qi, args in enumerate(arglists + extra):
             labs = [labels[i] if i < n else f'?unknown{i}' for i in args]
             # the argument is any iterable: lists, tuples, one-shot iterators and generators in turn
-            wrap = [list, tuple, iter, lambda l: (x for x in l)][qi % 4]
+            wrap = [list, tuple, iter, lambda l: (x for x in l), as_str_if_chars][qi % 5]
             try:
                 res = fn(wrap(labs))
                 raw = fn(wrap(labs), raw=True)
@@ -65,13 +65,27 @@ def observe(cx, tier, seed, impl=None):
     return Case(term, cx.to_json(), nontrivial, subs, sig=cx.key())
 
 
+def as_str_if_chars(labs):
+    """a plain str is an iterable of one-character labels"""
+    return ''.join(labs) if all(isinstance(x, str) and len(x) == 1 for x in labs) else list(labs)
+
+
 def cases(tier, seed):
     ctxs = util.contexts_for(tier, seed, exh_thorough=10, rnd_quick=200, rnd_thorough=1500)
     impls = util.prebuild(ctxs)
-    return [observe(cx, tier, seed, impl) for cx, impl in zip(ctxs, impls)]
+    out = [observe(cx, tier, seed, impl) for cx, impl in zip(ctxs, impls)]
+    from . import latfam
+    out += latfam.indirect_context_cases(tier, seed, lambda cx, ctx: observe(cx, tier, seed, ctx),
+                                         lambda cx, e: Case(f'({cx.coq()}, [-2], [])', cx.to_json(), False, [{'constructor raised': repr(e)}]))
+    return out
 
 
 def case_from_replay(inp):
+    if inp.get('obtained'):
+        from . import latfam
+        c = latfam.indirect_replay(inp, lambda cx, ctx: observe(cx, 'quick', 0, ctx))
+        if c is not None:
+            return c
     return observe(gen.Ctx.from_json(inp), 'quick', 0)
 
 
